@@ -120,13 +120,13 @@ type h2eng struct {
 	stopRead   bool // the reader task stops consuming (flood / stall scenarios)
 
 	// client-side view of what the server may send (C34)
-	initWin      int64 // stream window new streams start with (permissive)
-	maxFrame     int64
-	connWin      int64
-	streamWin    map[uint32]int64
-	pendSettings []sentSettings
+	initWin                     int64 // stream window new streams start with (permissive)
+	maxFrame                    int64
+	connWin                     int64
+	streamWin                   map[uint32]int64
+	pendSettings                []sentSettings
 	ackedInitWin, ackedMaxFrame int64
-	sentInitWin  int64 // the value of the client's latest SETTINGS_INITIAL_WINDOW_SIZE
+	sentInitWin                 int64 // the value of the client's latest SETTINGS_INITIAL_WINDOW_SIZE
 	// client's window-update policy
 	wuPolicy    int // 0 eager, 1 batched, 2 delayed, 3 manual
 	wuBatch     int64
@@ -136,10 +136,14 @@ type h2eng struct {
 	ackPing     bool
 
 	// server-side windows as advertised to the client (C33)
-	srvInitWin   int64
-	srvConnWin   int64
-	srvStreamWin map[uint32]int64
-	gotSrvSettings bool
+	srvInitWin                                               int64
+	srvConnWin                                               int64
+	srvStreamWin                                             map[uint32]int64
+	gotSrvSettings                                           bool
+	connCap                                                  int64 // the connection receive window the server started with (C33)
+	resetDone                                                map[uint32]bool
+	violationSent, sendersDone, holdAll, violationImpossible bool
+	violationAt                                              time.Duration
 
 	handlers map[uint32]*hplan // by stream id
 	byPath   map[string]*hplan
@@ -356,6 +360,10 @@ func (e *h2eng) reader() {
 		}
 		r.Seq = e.s.Note("recv", r.String())
 		e.recv = append(e.recv, r)
+		if (r.Type == xh2.FrameData || r.Type == xh2.FrameHeaders) && e.resetDone[r.Stream] {
+			e.s.FailK("C34.afterreset", "frame-after-stream-reset", "%v arrived although the server had already processed the client's RST_STREAM for stream %d (a PING sent after the RST_STREAM was acknowledged before it)", r, r.Stream)
+			return
+		}
 		if r.Type == xh2.FrameData || r.Type == xh2.FrameHeaders || r.Type == xh2.FrameRSTStream {
 			if e.perStream == nil {
 				e.perStream = map[uint32][]rframe{}
@@ -392,6 +400,14 @@ func (e *h2eng) react(r rframe) {
 			e.wmu.Unlock()
 		}
 	case xh2.FramePing:
+		if r.Ack && len(r.Data) == 8 && string(r.Data[:4]) == "rst!" {
+			// the server has processed everything the client sent before this PING, the RST_STREAM included
+			id := uint32(r.Data[4])<<24 | uint32(r.Data[5])<<16 | uint32(r.Data[6])<<8 | uint32(r.Data[7])
+			if e.resetDone == nil {
+				e.resetDone = map[uint32]bool{}
+			}
+			e.resetDone[id] = true
+		}
 		if !r.Ack && e.ackPing {
 			var d [8]byte
 			copy(d[:], r.Data)
@@ -402,8 +418,14 @@ func (e *h2eng) react(r rframe) {
 	case xh2.FrameWindowUpdate:
 		if r.Stream == 0 {
 			e.srvConnWin += int64(r.Incr)
+			if e.focus == "C33" && e.connCap > 0 && e.srvConnWin > e.connCap {
+				e.s.FailK("C33.replenish", "connection-window-overcredited", "WINDOW_UPDATE +%d lifts the connection window to %d, above the %d it started with: more was given back than was consumed", r.Incr, e.srvConnWin, e.connCap)
+			}
 		} else {
 			e.srvStreamWin[r.Stream] += int64(r.Incr)
+			if _, mine := e.handlers[r.Stream]; e.focus == "C33" && mine && e.srvStreamWin[r.Stream] > e.srvInitWin {
+				e.s.FailK("C33.replenish", "stream-window-overcredited", "WINDOW_UPDATE +%d lifts the window of stream %d to %d, above the initial %d: more was given back than was consumed", r.Incr, r.Stream, e.srvStreamWin[r.Stream], e.srvInitWin)
+			}
 		}
 	case xh2.FrameData:
 		e.onData(r)
@@ -460,6 +482,15 @@ func (e *h2eng) grant(id uint32, ended bool) {
 	}
 }
 
+// resetStream: RST_STREAM(CANCEL) followed by a PING that serves as a barrier.
+func (e *h2eng) resetStream(id uint32) {
+	e.wmu.Lock()
+	e.s.Note("op", fmt.Sprintf("client RST_STREAM s%d + PING barrier", id))
+	e.fr.WriteRSTStream(id, xh2.ErrCodeCancel)
+	e.fr.WritePing(false, [8]byte{'r', 's', 't', '!', byte(id >> 24), byte(id >> 16), byte(id >> 8), byte(id)})
+	e.wmu.Unlock()
+}
+
 // ---- frames of one stream, in order -------------------------------------------
 
 func (e *h2eng) framesOf(id uint32) []rframe { return e.perStream[id] }
@@ -503,29 +534,33 @@ type hwrite struct {
 }
 
 type hplan struct {
-	ID       uint32
-	Path     string
-	Method   string
-	ReqBody  []byte
-	Read     int // 0 read all, 1 read nothing, 2 read a part
-	ReadPart int
-	ReadStep int
-	ReadSleepMs int
-	Status   int
-	Hdr      [][2]string // in the order set
-	Writes   []hwrite
-	Trailers [][2]string // name, value
+	ID                 uint32
+	Path               string
+	Method             string
+	ReqBody            []byte
+	Read               int // 0 read all, 1 read nothing, 2 read a part
+	ReadPart           int
+	ReadStep           int
+	ReadSleepMs        int
+	Status             int
+	Hdr                [][2]string // in the order set
+	Writes             []hwrite
+	Trailers           [][2]string // name, value
 	TrailerPrefixStyle bool
-	HoldUntil func() bool // the handler waits for this before answering (nil: no wait)
+	TrailerLines       bool // one "Trailer" header line per trailer name instead of one list
+	Huge               bool
+	ClientReset        bool        // the client resets this stream in mid-response
+	HoldUntil          func() bool // the handler waits for this before answering (nil: no wait)
+	HoldBeforeRead     func() bool // the handler waits for this before it reads the body
 
 	// observed
-	Started, Done bool
-	GotBody       []byte
-	ReadErr       error
-	Wrote         []byte
-	WriteErr      error
+	Started, Done                 bool
+	GotBody                       []byte
+	ReadErr                       error
+	Wrote                         []byte
+	WriteErr                      error
 	SeenMethod, SeenHost, SeenURI string
-	SeenHdr       http.Header
+	SeenHdr                       http.Header
 }
 
 func (e *h2eng) serveHTTP(w http.ResponseWriter, r *http.Request) {
@@ -538,6 +573,9 @@ func (e *h2eng) serveHTTP(w http.ResponseWriter, r *http.Request) {
 	p.Started = true
 	p.SeenMethod, p.SeenHost, p.SeenURI, p.SeenHdr = r.Method, r.Host, r.RequestURI, r.Header
 	e.s.Note("handler", fmt.Sprintf("start %s %s", r.Method, r.URL.Path))
+	if p.HoldBeforeRead != nil {
+		simrt.WaitUntil(p.HoldBeforeRead)
+	}
 	switch p.Read {
 	case 0, 2:
 		step := p.ReadStep
@@ -573,7 +611,13 @@ func (e *h2eng) serveHTTP(w http.ResponseWriter, r *http.Request) {
 		for _, t := range p.Trailers {
 			names = append(names, t[0])
 		}
-		w.Header().Set("Trailer", strings.Join(names, ", "))
+		if p.TrailerLines {
+			for _, n := range names {
+				w.Header().Add("Trailer", n)
+			}
+		} else {
+			w.Header().Set("Trailer", strings.Join(names, ", "))
+		}
 	}
 	w.WriteHeader(p.Status)
 	fl, _ := w.(http.Flusher)
